@@ -86,6 +86,17 @@ pub fn exec(it: &mut Interp, toks: &[&str], out: &mut Vec<String>) -> bool {
             }
             true
         }
+        ["clone", a, bb] => {
+            // `Ontology::clone()`: the copy answers every query like the original
+            let (Ok(a), Ok(bb)) = (a.parse::<u32>(), bb.parse::<u32>()) else { return false };
+            match it.slots.get(&a).cloned() {
+                Some(o) => {
+                    it.slots.insert(bb, o);
+                }
+                None => out.push("noslot".to_string()),
+            }
+            true
+        }
         ["same", a, bb] => {
             let (Some(oa), Some(ob)) = (
                 a.parse::<u32>().ok().and_then(|s| it.slots.get(&s)),
@@ -238,8 +249,16 @@ fn big_arena(n: u32, seed: u64) -> Result<(), String> {
     }
     let mut b = b.terms_complete();
     b.add_parent(1u32, 118u32).map_err(|_| "add_parent failed".to_string())?;
+    let mut b = b.connect_all_terms();
+    // one gene, one OMIM and one ORPHA record (same number) directly annotated to EVERY term:
+    // record term lists beyond 65 535 entries
+    for id in &order {
+        let t = hpo::HpoTermId::from(*id);
+        b.annotate_gene(hpo::annotations::GeneId::from(7u32), "G7", t).map_err(|_| "annotate_gene failed".to_string())?;
+        b.annotate_omim_disease(hpo::annotations::OmimDiseaseId::from(7u32), "O7", t).map_err(|_| "annotate_omim failed".to_string())?;
+        b.annotate_orpha_disease(hpo::annotations::OrphaDiseaseId::from(7u32), "R7", t).map_err(|_| "annotate_orpha failed".to_string())?;
+    }
     let o = b
-        .connect_all_terms()
         .calculate_information_content()
         .map_err(|_| "ic failed".to_string())?
         .build_with_defaults()
@@ -269,6 +288,37 @@ fn big_arena(n: u32, seed: u64) -> Result<(), String> {
     let set: BTreeSet<u32> = v.iter().copied().collect();
     if v.len() != ids.len() || set != ids {
         return Err(format!("iteration yields {} ids ({} distinct), expected {}", v.len(), set.len(), ids.len()));
+    }
+    // the records list every term; binary round trip and clone keep all of it
+    let check = |o: &Ontology, what: &str| -> Result<(), String> {
+        let g = o.gene(&hpo::annotations::GeneId::from(7u32)).ok_or(format!("{what}: gene 7 missing"))?;
+        let d = o.omim_disease(&hpo::annotations::OmimDiseaseId::from(7u32)).ok_or(format!("{what}: OMIM 7 missing"))?;
+        let r = o.orpha_disease(&hpo::annotations::OrphaDiseaseId::from(7u32)).ok_or(format!("{what}: ORPHA 7 missing"))?;
+        use hpo::annotations::Disease;
+        for (k, n) in [("gene", g.hpo_terms().len()), ("omim", d.hpo_terms().len()), ("orpha", r.hpo_terms().len())] {
+            if n != ids.len() {
+                return Err(format!("{what}: the {k} record lists {n} terms, expected {}", ids.len()));
+            }
+        }
+        if o.len() != ids.len() {
+            return Err(format!("{what}: len() = {}", o.len()));
+        }
+        let last = *ids.iter().next_back().unwrap();
+        let t = o.hpo(last).ok_or(format!("{what}: the largest id {last} does not resolve"))?;
+        if t.gene_ids().len() != 1 || t.omim_disease_ids().len() != 1 || t.orpha_disease_ids().len() != 1 {
+            return Err(format!("{what}: term {last} lost an annotation"));
+        }
+        Ok(())
+    };
+    check(&o, "built")?;
+    let bytes = o.as_bytes();
+    let re = Ontology::from_bytes(&bytes).map_err(|e| format!("from_bytes(as_bytes) of the big ontology: {e}"))?;
+    check(&re, "reloaded")?;
+    let cl = o.clone();
+    check(&cl, "clone")?;
+    let r = std::panic::catch_unwind(std::panic::AssertUnwindSafe(|| cl.iter().count()));
+    if r.ok() != Some(ids.len()) {
+        return Err("iterating the clone panics or yields another number of terms".to_string());
     }
     Ok(())
 }
